@@ -139,6 +139,18 @@ theorem C09_filter_inert_ord (a v : Bytes) (ha : attrDescOk a = true) :
   exact ⟨parse_of_G (valItem_G (.ge a) h (rvalF_ldapEscape v)), parse_of_G (valItem_G (.le a) h (rvalF_ldapEscape v)),
     parse_of_G (valItem_G (.approx a) h (rvalF_ldapEscape v))⟩
 
+/-- … with the tags the model parser returns (`non_eq` of filter.rs: ids 5, 6, 8) -/
+theorem C09_filter_inert_ord_tag (a v : Bytes) (ha : attrDescOk a = true) :
+    Filter.parse ([0x28] ++ a ++ [0x3E, 0x3D] ++ ldapEscape v ++ [0x29]) =
+      some (.sequence 2 5 [.octetString 0 4 a, .octetString 0 4 v]) ∧
+    Filter.parse ([0x28] ++ a ++ [0x3C, 0x3D] ++ ldapEscape v ++ [0x29]) =
+      some (.sequence 2 6 [.octetString 0 4 a, .octetString 0 4 v]) ∧
+    Filter.parse ([0x28] ++ a ++ [0x7E, 0x3D] ++ ldapEscape v ++ [0x29]) =
+      some (.sequence 2 8 [.octetString 0 4 a, .octetString 0 4 v]) := by
+  have h := (attrDescOk_iff a).mp ha
+  exact ⟨parse_ge_exact h (rvalF_ldapEscape v), parse_le_exact h (rvalF_ldapEscape v),
+    parse_approx_exact h (rvalF_ldapEscape v)⟩
+
 /-- Substring filters, any number of pieces: `(a=[esc ini]*{esc any_k *}[esc fin])`
 (`substrText`) is the substring filter with exactly these pieces, in this order.  The pieces must be
 non-empty (RFC 4511: `SIZE (1..MAX)`; an empty escaped piece makes `(a=i**f)`, which is rejected, or
@@ -252,6 +264,14 @@ theorem C09_filter_inert_ctx (f : Spec.Filter) (C : Bytes → Bytes) (v : Bytes)
     (Filter.parse (C (ldapEscape v))).map Tag.toTlv = some (Spec.Filter.toTlv f) :=
   parse_of_GLib (h _ (rvalF_ldapEscape v))
 
+/-- For a Rust `str` `v` and an attribute description of RFC 4512 as written (a numeric oid has at
+least two arcs), the text `(a op <ldap_escape v>)` is itself valid UTF-8 (a `&str` that can be handed to
+`parse_filter`) and a filter string of RFC 4515 as written (`GRfc`, the language of `C08_complete`)
+denoting the node (`a`, `v`): escaping never leaves the RFC's language. -/
+theorem C09_filter_text_rfc (it : Spec.Filter.ValItem) (v : Bytes) (ha : Spec.Filter.IsAttrDesc .rfc it.attr)
+    (hv : utf8Valid v = true) : Spec.Filter.GRfc (it.tree v) (it.text (ldapEscape v)) :=
+  ⟨Or.inl (valItem_G it ha (rvalF_ldapEscape v)), valItem_text_utf8 it ha v hv⟩
+
 /-! ### dn_escape -/
 
 /-- The RFC 4514 reader, placed at the start of `dn_escape(v)` followed by the end of the DN or a
@@ -297,6 +317,8 @@ example : attrDescOk [] = false ∧ attrDescOk [0x61, 0x20, 0x62] = false ∧ at
 example : (Filter.parse [0x28, 0x3D, 0x78, 0x29]).isNone = true ∧
     (Filter.parse [0x28, 0x61, 0x20, 0x62, 0x3D, 0x78, 0x29]).isNone = true ∧
     (Filter.parse [0x28, 0x31, 0x2E, 0x3D, 0x78, 0x29]).isNone = true := by decide
+example : Spec.Filter.IsAttrDesc .rfc (Spec.Filter.ValItem.approx [0x63, 0x6E]).attr :=
+  ⟨[0x63, 0x6E], [], Or.inl (by decide), by simp, rfl⟩
 -- `(cn=<ldap_escape "a\*(b)NUL">)`: the BER of equalityMatch (cn, a\*(b)NUL), all seven octets in the value
 example : (Filter.parse ([0x28, 0x63, 0x6E, 0x3D] ++ ldapEscape [0x61, 0x5C, 0x2A, 0x28, 0x62, 0x29, 0x00] ++ [0x29])).map
       (fun t => encode t.toTlv) =
